@@ -228,6 +228,10 @@ class Check:
         self.broken = []          # names of theorems / correspondences that no longer check
         self.findings = [f for f in json.load(open(os.path.join(VERIF, "known_findings.json")))["findings"]
                          if f["property"] == pid]
+        frag = os.path.join(VERIF, "props", pid, "findings.json")
+        if not self.findings and os.path.exists(frag):
+            # per-property fragment (merged into known_findings.json by tools/merge.py); read-only at run time
+            self.findings = [f for f in json.load(open(frag))["findings"] if f["property"] == pid]
         self.print_assumptions = {}
         self.repo = REPO
         self.coq = COQ
